@@ -64,6 +64,19 @@ CLAIMED = {
         note='Trusted: rustc MIR; the book as the list of documented short-circuit functions. Literal-true flag sites are listed with reasons in rules/c07.py.',
         technique='static analysis: flag/value provenance dataflow, dominating-condition extraction, forward result-flow (tail-position) check on resolved MIR',
         design='2/C07'),
+    'C06': dict(
+        level='other',
+        text='Linearity of violation- and error-carrying values decided for every MIR body of the crate: (1) no value that may hold a '
+             'RuntimeViolation is dropped (path-sensitive over drop flags × discriminants; a drop is tolerated only when the function is '
+             'already committed to returning a violation) nor handed to a discarding combinator (ok, is_ok, unwrap_or, ...): after drop '
+             'elaboration a swallowed violation necessarily shows up as such a drop or call, so this is exact for "a violation value is '
+             'discarded"; (2) the same for error values, where dropping/inspecting is allowed only inside the documented handlers '
+             '(is_error, if_error, get_error) or when a clone was forwarded; (3) the user-call path returns the leftmost erroring argument '
+             'before building a frame; (4) by element types, collections cannot hold errors. NOT decided: the leftmost-error order among '
+             'several simultaneous errors beyond the argument-order rule of C02.',
+        note='Trusted: rustc drop elaboration; the book as the list of handlers. Two exemptions with reasons in rules/c06.py (E_EXEMPT).',
+        technique='static analysis: path-sensitive drop/linearity analysis (drop flags × discriminants) and combinator inventory on resolved MIR',
+        design='2/C06'),
 }
 
 NA_REASONS = {
